@@ -20,7 +20,7 @@ RULE = ('cases = constructor calls TT(dense, shape?, eps, rmax) on {Gaussian arr
 ASSUMPTIONS = ['exact unfolding ranks are measured by the harness as the number of singular values above 1e-10 (f64) / 1e-5 (f32) relative to the largest',
                '"rmax binding" is decided conservatively: the error clause is skipped whenever some returned rank equals its cap']
 REQUIRED_REACH = ['_decomposition:to_tt', '_decomposition:mat_to_tt', '_decomposition:rank_chop', '_decomposition:SVD', '_tt_base:TT.__init__']
-REQUIRED_COUNTS = {'source:numpy': 1, 'source:torch': 1, 'shape:none': 1, 'shape:tensor': 1, 'shape:operator': 1, 'structure:tall-unfolding': 1, 'rmax:int': 1, 'rmax:list': 1,
+REQUIRED_COUNTS = {'source:numpy': 1, 'source:torch': 1, 'shape:none': 1, 'shape:tensor': 1, 'shape:operator': 1, 'structure:tall-unfolding': 1, 'rmax:int': 1, 'rmax:list': 1, 'rmax:list-reused-across-calls': 5,
                    'truncating_executions': 50, 'breakpoints_bisected': 5, 'executions': 500}
 LINE_FUNCS = ['to_tt', 'mat_to_tt', 'rank_chop', 'SVD']
 CASE_TIMEOUT = {'quick': 120, 'thorough': 300}
@@ -155,7 +155,7 @@ def request(case, A):
     return src, shape, modes
 
 
-def observe(ctx, case, A, src, shape, modes, eps, rmax, label):
+def observe(ctx, case, A, src, shape, modes, eps, rmax, label, caps_written=None):
     """One execution of the constructor under the oracle.  Returns the interior rank vector (or None)."""
     import torchtt
     dt = A.dtype
@@ -195,7 +195,7 @@ def observe(ctx, case, A, src, shape, modes, eps, rmax, label):
     # (c) rank bounds
     caps = None
     if rmax is not None:
-        caps = rmax if isinstance(rmax, list) else [1] + [rmax] * (d - 1) + [1]
+        caps = caps_written if caps_written is not None else (rmax if isinstance(rmax, list) else [1] + [rmax] * (d - 1) + [1])
         if any(R[k] > caps[k] for k in range(d + 1)):
             ctx.viol(key + '/clause=rank>rmax', '%s: R=%s caps=%s' % (what, R, caps))
     binding = caps is not None and any(R[k] >= caps[k] for k in range(1, d))
@@ -272,6 +272,21 @@ def run_random(case, ctx, g):
         ctx.count('rmax:' + case['rmax'])
     if case.get('tall'):
         ctx.count('structure:tall-unfolding')
+    if isinstance(rmax, list) and len(modes) > 1 and case['seed'] % 2 == 0:
+        # the caller keeps ONE per-bond rmax list (and one shape list) and builds several objects with it: first from a rank-1 array of the same shape, then from A
+        import torchtt
+        wanted = list(rmax)
+        vs = [gens.values([n], A.dtype, 'gauss', g) for n in A.shape]
+        A1 = vs[0]
+        for v in vs[1:]:
+            A1 = torch.tensordot(A1, v, dims=0)
+        kw = {'eps': case['eps'], 'rmax': rmax}
+        if shape is not None:
+            kw['shape'] = shape
+        ctx.lib('TT(dense)', lambda a: torchtt.TT(a.numpy() if case.get('source') == 'numpy' else a, **kw), A1)
+        ctx.count('rmax:list-reused-across-calls')
+        observe(ctx, case, A, src, shape, modes, case['eps'], rmax, 'random(reused rmax list, written as %s)' % wanted, caps_written=wanted)
+        return
     observe(ctx, case, A, src, shape, modes, case['eps'], rmax, 'random')
 
 
